@@ -264,7 +264,8 @@ def _cog_block_compressor_yxs(
         block = predictor(block, axis=1)
     if encoder:
         # an encoder failure must not turn into an "empty" tile
-        return encoder(block, **kw)
+        # (some codecs, e.g. JPEG, only take C-contiguous input)
+        return encoder(np.ascontiguousarray(block), **kw)
 
     return bytes(block.data)
 
@@ -298,7 +299,8 @@ def _cog_block_compressor_syx(
 
     if encoder:
         # an encoder failure must not turn into an "empty" tile
-        return encoder(block, **kw)
+        # (some codecs, e.g. JPEG, only take C-contiguous input)
+        return encoder(np.ascontiguousarray(block), **kw)
 
     return bytes(block.data)
 
